@@ -1,7 +1,7 @@
 """X06 (extra) - cell utilities of phonopy/structure/cells.py and the PhonopyAtoms class.
 
 Specification: spec/CellUtils.tla (pure requirements), CellCatalogue.tla, CellCat.tla, CellEstimate.tla, CellClose.tla,
-CellUtilsTrace.tla, AtomsSM.tla.
+CellUtilsTrace.tla, AtomsSM.tla.  Real-code drivers and projections: harness/x06_driver.py.
 
  (a) TLC model level: the centring table is a table of lattices and is what the catalogue crystals (one per letter /
      crystal system, exact space group computed by TLC) have as pure translations; the greedy loop of
@@ -343,7 +343,11 @@ def run(ctx):
         "checked to be lossless (1e-9) and recorded in each event",
         "sqrt / arccos in get_cell_parameters / get_angles are named primitives: the harness squares the lengths and takes cosines",
         "Niggli / Delaunay reductions are spglib's; the requirement is on what get_reduced_bases returns",
-        "isclose is decided on exact cells (distances 0 or >= 1/4 of a basis vector); tolerance semantics are probed separately",
+        "isclose is decided on exact cells (distances 0 or >= 1/4 of a basis vector); the tolerance is probed by displacement classes "
+        "(0, < atol, between atol and sqrt(atol), > sqrt(atol))",
+        "yaml round trip: read-back error per field in units of the last printed decimal, one ulp of a double allowed on top of half a unit",
+        "PhonopyAtoms histories use three elements (H, Si, Fe: IUPAC 2005 masses), dyadic numbers and lower-triangular cells so that every "
+        "comparison is exact; the deprecated symbols/numbers setters and the atoms= / magmoms= / pbc= constructor arguments are not driven",
     ]
     with ThreadPoolExecutor(max_workers=4) as ex:
         futs = [ex.submit(f, ctx) for f in (catalogue_model, estimate_model, close_model, atoms_model)]
@@ -417,9 +421,19 @@ def atoms_model(ctx):
 def atoms_replay(ctx, rows, decimals):
     from harness import x06_driver as drv
 
-    if not ctx.quick and len(rows) > 60000:
-        idx = np.random.default_rng(5000 + ctx.seed).permutation(len(rows))[:60000]
-        rows = [rows[i] for i in sorted(idx)]
+    if len(rows) > 60000:      # a prefix-closed sample: a diverging history is blamed on its first diverging step
+        bykey = {json.dumps(r[0], sort_keys=True): r for r in rows}
+        idx = np.random.default_rng(5000 + ctx.seed).permutation(len(rows))[:45000]
+        keep = {}
+        for i in sorted(idx):
+            h = rows[i][0]
+            for n in range(len(h), 0, -1):
+                k = json.dumps(h[:n], sort_keys=True)
+                if k in keep:
+                    break
+                if k in bykey:
+                    keep[k] = bykey[k]
+        rows = list(keep.values())
     bad = drv.atoms_replay(rows, decimals)
     ctx.traces += len(rows)
     for h, s, _, _ in rows:
